@@ -92,14 +92,14 @@ fn pending_has_once(p: &Vec<u64>, page: u64) -> bool {
 }
 
 // ---- C05-Ob6: bucket deletion frees every page run of the bucket exactly once (incl. overflow runs)
-// @ob props=C05,C10,C01 tier=quick cap=900 mem=16 fns=InnerBucket::delete_bucket,InnerBucket::get_bucket,InnerBucket::bucket_getter,TxFreelist::free,search,InnerBucket::node,Node::delete bound="root leaf with one bucket entry (name 1 symbolic byte) whose root is a leaf run of 3 pages (overflow 2) holding one 2-byte kv; tx id 7" unwind=20
+// @ob props=C05,C10,C01 tier=quick cap=900 fns=InnerBucket::delete_bucket,InnerBucket::get_bucket,InnerBucket::bucket_getter,TxFreelist::free,search,InnerBucket::node,Node::delete bound="concrete tree, no symbolic input (one execution): root leaf with one bucket entry whose root is a leaf run of 3 pages (overflow 2); tx id 7" unwind=17
 #[kani::proof]
-#[kani::unwind(20)]
+#[kani::unwind(17)]
 fn bucket_delete_frees_overflow_run() {
-    let name: [u8; 1] = kani::any();
+    let name: [u8; 1] = [b'b']; // concrete inputs: the walk is the subject (symbolic names fork every map lookup)
     let bv = bucket_value(4, 1);
     put_leaf_page(3, 0, &[Ent { t: 1, k: &name, v: &bv }]);
-    let k: [u8; 2] = kani::any();
+    let k: [u8; 2] = [1, 2];
     put_leaf_page(4, 2, &[Ent { t: 0, k: &k, v: &[9] }]);
     let b = mk_bucket(3, true);
     let r = b.delete_bucket(name);
@@ -128,16 +128,15 @@ fn bucket_delete_frees_overflow_run() {
 }
 
 // ---- C05-Ob6: a bucket with a branch root, two leaves (one with an overflow page) and a nested bucket
-// @ob props=C05,C10 tier=quick cap=1200 mem=16 fns=InnerBucket::delete_bucket,TxFreelist::free,Page::branch_elements,Page::leaf_elements,BucketMeta::from bound="deleted bucket: branch root 4 over leaf 5 (overflow 1) and leaf 7, leaf 7 holds a nested bucket rooted at leaf 8; key bytes symbolic" unwind=20
+// @ob props=C05,C10 tier=quick cap=1200 fns=InnerBucket::delete_bucket,TxFreelist::free,Page::branch_elements,Page::leaf_elements,BucketMeta::from bound="concrete tree, no symbolic input (one execution): deleted bucket = branch root 4 over leaf 5 (overflow 1) and leaf 7, leaf 7 holds a nested bucket rooted at leaf 8" unwind=17
 #[kani::proof]
-#[kani::unwind(20)]
+#[kani::unwind(17)]
 fn bucket_delete_walks_tree() {
-    let name: [u8; 1] = kani::any();
+    let name: [u8; 1] = [b'b'];
     let bv = bucket_value(4, 3);
     put_leaf_page(3, 0, &[Ent { t: 1, k: &name, v: &bv }]);
-    let ka: [u8; 1] = kani::any();
-    let kb: [u8; 1] = kani::any();
-    kani::assume(ka[0] < kb[0]);
+    let ka: [u8; 1] = [3];
+    let kb: [u8; 1] = [9];
     put_branch_page(4, 0, &[(&ka, 5), (&kb, 7)]);
     put_leaf_page(5, 1, &[Ent { t: 0, k: &ka, v: &[1] }]);
     let nv = bucket_value(8, 0);
@@ -193,26 +192,37 @@ fn bucket_get_step() {
     std::mem::forget(b);
 }
 
-// ---- C01-Ob4 / C07: put on a committed leaf: insert or overwrite, counter semantics, read-your-write
-// @ob props=C01,C07 tier=quick cap=900 mem=16 fns=InnerBucket::put,InnerBucket::put_leaf,InnerBucket::node,Node::from_page,Node::insert_data,InnerBucket::get bound="root leaf page with 2 sorted symbolic 2-byte keys; put key symbolic 2 bytes, value 1 symbolic byte; then 3 lookups" unwind=5
-#[kani::proof]
-#[kani::unwind(5)]
-fn bucket_put_step() {
+// ---- C01-Ob4 / C07: put on a committed leaf: insert or overwrite, counter semantics, read-your-write.
+// One harness per position of the key relative to the two committed keys (a symbolic position makes the
+// materialised node's index symbolic for every later access: 1.2 M symex steps, out of memory).
+fn put_case(pos: u8) {
+    // pos: 0 = below both keys, 1 = equal to the first, 2 = between, 3 = equal to the second, 4 = above both
     let k2: [[u8; 2]; 2] = kani::any();
     kani::assume(k2[0] < k2[1]);
     let keys = [k2[0], k2[1], [0, 0]];
     tree_single_leaf(&keys, 2);
     let b = mk_bucket(3, true);
-    let k: [u8; 2] = kani::any();
+    let fresh: [u8; 2] = kani::any();
+    let k: [u8; 2] = match pos {
+        1 => k2[0],
+        3 => k2[1],
+        _ => fresh,
+    };
     let v: [u8; 1] = kani::any();
-    let hit = k == k2[0] || k == k2[1];
+    match pos {
+        0 => kani::assume(k < k2[0]),
+        2 => kani::assume(k > k2[0] && k < k2[1]),
+        4 => kani::assume(k > k2[1]),
+        _ => {}
+    }
+    let hit = pos == 1 || pos == 3;
     let r = b.inner.borrow_mut().put(k, v);
     assert!(r.is_ok());
     if let Ok(old) = &r {
         match old {
             Some((_, ov)) => {
                 let s: &[u8] = ov.as_ref();
-                assert!(hit && s.len() == 1 && s[0] == if k == k2[0] { 7 } else { 8 }, "overwriting returns the previous value");
+                assert!(hit && s.len() == 1 && s[0] == if pos == 1 { 7 } else { 8 }, "overwriting returns the previous value");
             }
             None => assert!(!hit, "a new key returns nothing"),
         }
@@ -220,64 +230,115 @@ fn bucket_put_step() {
     std::mem::forget(r);
     assert!(b.inner.borrow().meta.next_int == if hit { 0 } else { 1 }, "the insertion counter is bumped for a new key only");
     assert!(b.inner.borrow().dirty);
-    // read your own write, and the other entries are untouched
-    let g = b.inner.borrow_mut().get(k);
-    assert!(val_of(&g) == Some(v[0]), "the transaction reads its own put");
-    std::mem::forget(g);
-    let g0 = b.inner.borrow_mut().get(k2[0]);
-    assert!(val_of(&g0) == Some(if k == k2[0] { v[0] } else { 7 }));
-    std::mem::forget(g0);
-    let g1 = b.inner.borrow_mut().get(k2[1]);
-    assert!(val_of(&g1) == Some(if k == k2[1] { v[0] } else { 8 }));
-    std::mem::forget(g1);
-    kani::cover!(hit);
-    kani::cover!(!hit && k < k2[0]);
-    kani::cover!(!hit && k > k2[1]);
+    // inspect the materialised leaf directly (a second bucket operation after a data-dependent one doubles the
+    // symbolic state: the infeasible "other" outcome of the first is only pruned by the SAT solver)
+    {
+        let ib = b.inner.borrow();
+        assert!(ib.nodes.len() == 1);
+        let n = ib.nodes[0].borrow();
+        let l = match &n.data {
+            NodeData::Leaves(l) => l,
+            _ => panic!("leaf expected"),
+        };
+        assert!(l.len() == if hit { 2 } else { 3 }, "an existing key is replaced, a new key adds one entry");
+        let at = match pos {
+            0 => 0,
+            1 => 0,
+            2 => 1,
+            3 => 1,
+            _ => 2,
+        };
+        assert!(l[at].key() == &k[..] && l[at].value() == &v[..] && l[at].is_kv(), "the entry sits at its sorted position with the new value");
+        let first = if pos == 0 { 1 } else { 0 };
+        if pos != 1 {
+            assert!(l[first].key() == &k2[0][..] && l[first].value() == &[7u8][..], "other entries are untouched");
+        }
+    }
     std::mem::forget(b);
 }
 
+macro_rules! put_harness {
+    ($name:ident, $pos:expr) => {
+        #[kani::proof]
+        #[kani::unwind(5)]
+        fn $name() {
+            put_case($pos);
+        }
+    };
+}
+// @ob props=C01,C07 tier=quick cap=900 fns=InnerBucket::put,InnerBucket::put_leaf,InnerBucket::node,Node::from_page,Node::insert_data,InnerBucket::get bound="root leaf page with 2 sorted symbolic 2-byte keys; put of a new symbolic key BELOW both, symbolic value; then the leaf is inspected" unwind=5
+put_harness!(bucket_put_new_below, 0);
+// @ob props=C01,C07 tier=quick cap=900 fns=InnerBucket::put,InnerBucket::put_leaf,InnerBucket::node,Node::from_page,Node::insert_data,InnerBucket::get bound="same leaf; put OVER the first key" unwind=5
+put_harness!(bucket_put_over_first, 1);
+// @ob props=C01,C07 tier=quick cap=900 fns=InnerBucket::put,InnerBucket::put_leaf,InnerBucket::node,Node::from_page,Node::insert_data,InnerBucket::get bound="same leaf; put of a new symbolic key BETWEEN the two" unwind=5
+put_harness!(bucket_put_new_between, 2);
+// @ob props=C01,C07 tier=thorough cap=900 fns=InnerBucket::put,InnerBucket::put_leaf,InnerBucket::node,Node::from_page,Node::insert_data,InnerBucket::get bound="same leaf; put OVER the second key" unwind=5
+put_harness!(bucket_put_over_second, 3);
+// @ob props=C01,C07 tier=thorough cap=900 fns=InnerBucket::put,InnerBucket::put_leaf,InnerBucket::node,Node::from_page,Node::insert_data,InnerBucket::get bound="same leaf; put of a new symbolic key ABOVE both" unwind=5
+put_harness!(bucket_put_new_above, 4);
+
 // ---- C01-Ob4 / C07: delete on a committed leaf
-// @ob props=C01,C07 tier=quick cap=900 mem=16 fns=InnerBucket::delete,InnerBucket::node,Node::from_page,Node::delete,InnerBucket::get bound="root leaf page with 3 sorted symbolic 2-byte keys; delete key symbolic; then lookups" unwind=5
-#[kani::proof]
-#[kani::unwind(5)]
-fn bucket_delete_step() {
-    let keys: [[u8; 2]; 3] = kani::any();
-    kani::assume(keys[0] < keys[1] && keys[1] < keys[2]);
-    tree_single_leaf(&keys, 3);
+fn delete_case(which: u8) {
+    let k2: [[u8; 2]; 2] = kani::any();
+    kani::assume(k2[0] < k2[1]);
+    tree_single_leaf(&[k2[0], k2[1], [0, 0]], 2);
     let b = mk_bucket(3, true);
-    let k: [u8; 2] = kani::any();
-    let idx = if k == keys[0] { 0 } else if k == keys[1] { 1 } else if k == keys[2] { 2 } else { 3 };
+    let fresh: [u8; 2] = kani::any();
+    let k = match which {
+        0 => k2[0],
+        1 => k2[1],
+        _ => fresh,
+    };
+    if which == 2 {
+        kani::assume(k != k2[0] && k != k2[1]);
+    }
     let r = b.inner.borrow_mut().delete(k);
-    if idx == 3 {
+    if which == 2 {
         assert!(matches!(r, Err(Error::KeyValueMissing)), "deleting an absent key reports KeyValueMissing");
         assert!(is_clean(&b.inner.borrow()), "and changes nothing");
     } else {
         assert!(r.is_ok());
         if let Ok((_, ov)) = &r {
             let s: &[u8] = ov.as_ref();
-            assert!(s.len() == 1 && s[0] == 7 + idx as u8, "delete returns the removed pair");
+            assert!(s.len() == 1 && s[0] == 7 + which, "delete returns the removed pair");
         }
         assert!(b.inner.borrow().dirty);
+        assert!(b.inner.borrow().nodes.len() == 1 && b.inner.borrow().nodes[0].borrow().data.len() == 1);
     }
     std::mem::forget(r);
     assert!(b.inner.borrow().meta.next_int == 0, "deleting never changes the insertion counter");
-    let g = b.inner.borrow_mut().get(k);
-    assert!(g.is_none(), "the deleted key is gone for the transaction's own reads");
-    std::mem::forget(g);
-    let other = if idx == 0 { 1 } else { 0 };
-    let g = b.inner.borrow_mut().get(keys[other]);
-    assert!(val_of(&g) == Some(7 + other as u8), "other entries are untouched");
-    std::mem::forget(g);
-    kani::cover!(idx == 1);
-    kani::cover!(idx == 3);
+    if which != 2 {
+        let ib = b.inner.borrow();
+        let n = ib.nodes[0].borrow();
+        let l = match &n.data {
+            NodeData::Leaves(l) => l,
+            _ => panic!("leaf expected"),
+        };
+        let other = if which == 0 { 1 } else { 0 };
+        assert!(l.len() == 1 && l[0].key() == &k2[other][..] && l[0].value() == &[7u8 + other as u8][..], "exactly the deleted entry is gone");
+    }
     std::mem::forget(b);
 }
+macro_rules! delete_harness {
+    ($name:ident, $which:expr) => {
+        #[kani::proof]
+        #[kani::unwind(5)]
+        fn $name() {
+            delete_case($which);
+        }
+    };
+}
+// @ob props=C01,C07 tier=quick cap=900 fns=InnerBucket::delete,InnerBucket::node,Node::from_page,Node::delete,InnerBucket::get bound="root leaf page with 2 sorted symbolic 2-byte keys; delete of the FIRST key; then a lookup" unwind=5
+delete_harness!(bucket_delete_first, 0);
+// @ob props=C01,C07 tier=quick cap=900 fns=InnerBucket::delete,InnerBucket::node,Node::from_page,Node::delete,InnerBucket::get bound="same leaf; delete of the SECOND key" unwind=5
+delete_harness!(bucket_delete_second, 1);
+// @ob props=C01,C07,C06 tier=quick cap=900 fns=InnerBucket::delete,InnerBucket::get bound="same leaf; delete of an ABSENT symbolic key" unwind=5
+delete_harness!(bucket_delete_absent, 2);
 
-// ---- C01-Ob4 / C06-Ob4: bucket lookups / creations that fail change nothing; a creation bumps the counter once
-// @ob props=C01,C06,C07 tier=quick cap=900 mem=16 fns=InnerBucket::get_bucket,InnerBucket::create_bucket,InnerBucket::get_or_create_bucket,InnerBucket::bucket_getter,InnerBucket::put,InnerBucket::new_child bound="root leaf page with one kv entry and one bucket entry (1-byte names, symbolic); probe name symbolic 1 byte" unwind=5
-#[kani::proof]
-#[kani::unwind(5)]
-fn bucket_getter_steps() {
+// ---- C01-Ob4 / C06-Ob4: bucket lookups / creations / puts / deletes that fail return the documented error and
+//      change nothing (no node is materialised, counter untouched). One call per harness.
+fn failing_call(op: u8, target: u8) {
+    // leaf: one kv entry (name kvn) and one bucket entry (name bn); target: 0 = the kv name, 1 = the bucket name, 2 = a missing name
     let kvn: [u8; 1] = kani::any();
     let bn: [u8; 1] = kani::any();
     kani::assume(kvn[0] < bn[0]);
@@ -285,47 +346,122 @@ fn bucket_getter_steps() {
     put_leaf_page(3, 0, &[Ent { t: 0, k: &kvn, v: &[7] }, Ent { t: 1, k: &bn, v: &bv }]);
     put_leaf_page(5, 0, &[]);
     let b = mk_bucket(3, true);
-    let name: [u8; 1] = kani::any();
-    let is_kv = name == kvn;
-    let is_b = name == bn;
-    // 1. get_bucket
-    let r = b.inner.borrow_mut().get_bucket(name);
-    if is_b {
-        assert!(r.is_ok(), "an existing bucket is found");
-    } else if is_kv {
-        assert!(matches!(r, Err(Error::IncompatibleValue)), "a key/value pair is not a bucket");
-    } else {
-        assert!(matches!(r, Err(Error::BucketMissing)), "a missing bucket is reported as such");
+    let fresh: [u8; 1] = kani::any();
+    let name = match target {
+        0 => kvn,
+        1 => bn,
+        _ => fresh,
+    };
+    if target == 2 {
+        kani::assume(name != kvn && name != bn);
     }
-    std::mem::forget(r);
-    assert!(b.inner.borrow().meta.next_int == 0 && !b.inner.borrow().dirty && b.inner.borrow().nodes.len() == 0,
-            "a lookup, successful or not, changes neither the counter nor the tree");
-    // 2. put over a bucket name is refused and changes nothing
-    if is_b {
-        let p = b.inner.borrow_mut().put(name, [1u8]);
-        assert!(matches!(p, Err(Error::IncompatibleValue)), "a bucket cannot be overwritten by a value");
-        std::mem::forget(p);
-        assert!(b.inner.borrow().meta.next_int == 0 && !b.inner.borrow().dirty, "a refused put changes nothing");
+    match (op, target) {
+        // get_bucket
+        (0, 0) => {
+            let r = b.inner.borrow_mut().get_bucket(name);
+            assert!(matches!(r, Err(Error::IncompatibleValue)), "a key/value pair is not a bucket");
+            std::mem::forget(r);
+        }
+        (0, 1) => {
+            let r = b.inner.borrow_mut().get_bucket(name);
+            assert!(r.is_ok(), "an existing bucket is found");
+            std::mem::forget(r);
+        }
+        (0, _) => {
+            let r = b.inner.borrow_mut().get_bucket(name);
+            assert!(matches!(r, Err(Error::BucketMissing)), "a missing bucket is reported as such");
+            std::mem::forget(r);
+        }
+        // put over a bucket name
+        (1, _) => {
+            let r = b.inner.borrow_mut().put(name, [1u8]);
+            assert!(matches!(r, Err(Error::IncompatibleValue)), "a bucket cannot be overwritten by a value");
+            std::mem::forget(r);
+        }
+        // delete (as key/value)
+        (2, 1) => {
+            let r = b.inner.borrow_mut().delete(name);
+            assert!(matches!(r, Err(Error::IncompatibleValue)), "a bucket cannot be deleted as a key/value pair");
+            std::mem::forget(r);
+        }
+        (2, _) => {
+            let r = b.inner.borrow_mut().delete(name);
+            assert!(matches!(r, Err(Error::KeyValueMissing)));
+            std::mem::forget(r);
+        }
+        // create_bucket over an existing name
+        (_, 0) => {
+            let r = b.inner.borrow_mut().create_bucket(name);
+            assert!(matches!(r, Err(Error::IncompatibleValue)));
+            std::mem::forget(r);
+        }
+        (_, _) => {
+            let r = b.inner.borrow_mut().create_bucket(name);
+            assert!(matches!(r, Err(Error::BucketExists)));
+            std::mem::forget(r);
+        }
     }
-    // 3. create_bucket
-    let c = b.inner.borrow_mut().create_bucket(name);
-    if is_b {
-        assert!(matches!(c, Err(Error::BucketExists)));
-    } else if is_kv {
-        assert!(matches!(c, Err(Error::IncompatibleValue)));
-    } else {
-        assert!(c.is_ok(), "a new bucket can be created");
+    {
+        let ib = b.inner.borrow();
+        assert!(ib.meta.next_int == 0 && !ib.dirty && ib.nodes.len() == 0, "the call changed neither the counter nor the tree");
     }
-    std::mem::forget(c);
-    let created = !is_b && !is_kv;
-    assert!(b.inner.borrow().meta.next_int == created as u64, "the counter is bumped exactly when a bucket entry is added");
-    assert!(b.inner.borrow().dirty == created, "a failed creation changes nothing");
-    // 4. the transaction sees its own creation
-    let again = b.inner.borrow_mut().get_bucket(name);
-    assert!(again.is_ok() == (is_b || created));
-    std::mem::forget(again);
-    kani::cover!(is_b);
-    kani::cover!(is_kv);
-    kani::cover!(created && name[0] > bn[0]);
     std::mem::forget(b);
 }
+macro_rules! failing_harness {
+    ($name:ident, $op:expr, $target:expr) => {
+        #[kani::proof]
+        #[kani::unwind(17)]
+        fn $name() {
+            failing_call($op, $target);
+        }
+    };
+}
+// @ob props=C01,C06 tier=quick cap=900 fns=InnerBucket::get_bucket,InnerBucket::bucket_getter bound="leaf with one kv and one bucket entry (symbolic 1-byte names); get_bucket of the kv name" unwind=17
+failing_harness!(bucket_get_bucket_on_kv, 0, 0);
+// @ob props=C01,C06 tier=quick cap=900 fns=InnerBucket::get_bucket,InnerBucket::bucket_getter,InnerBucket::from_meta bound="same leaf; get_bucket of the bucket name (succeeds, changes nothing)" unwind=17
+failing_harness!(bucket_get_bucket_found, 0, 1);
+// @ob props=C01,C06 tier=quick cap=900 fns=InnerBucket::get_bucket,InnerBucket::bucket_getter bound="same leaf; get_bucket of a missing symbolic name" unwind=17
+failing_harness!(bucket_get_bucket_missing, 0, 2);
+// @ob props=C01,C06 tier=quick cap=900 fns=InnerBucket::put,InnerBucket::put_leaf bound="same leaf; put over the bucket name" unwind=17
+failing_harness!(bucket_put_over_bucket_refused, 1, 1);
+// @ob props=C01,C06 tier=quick cap=900 fns=InnerBucket::delete bound="same leaf; delete (as key/value) of the bucket name" unwind=17
+failing_harness!(bucket_delete_bucket_as_kv_refused, 2, 1);
+// @ob props=C01,C06 tier=quick cap=900 fns=InnerBucket::create_bucket,InnerBucket::bucket_getter bound="same leaf; create_bucket over the kv name" unwind=17
+failing_harness!(bucket_create_over_kv_refused, 3, 0);
+// @ob props=C01,C06 tier=quick cap=900 fns=InnerBucket::create_bucket,InnerBucket::bucket_getter bound="same leaf; create_bucket over the existing bucket name" unwind=17
+failing_harness!(bucket_create_existing_refused, 3, 1);
+
+// ---- C01-Ob4 / C07: creating a bucket bumps the counter once and the transaction sees it
+// @ob props=C01,C07 tier=quick cap=1200 fns=InnerBucket::create_bucket,InnerBucket::get_or_create_bucket,InnerBucket::bucket_getter,InnerBucket::new_child,InnerBucket::node,Node::from_page,Node::insert_data bound="root leaf page with one kv entry (1-byte name, symbolic); new bucket name symbolic 1 byte, different" unwind=5
+#[kani::proof]
+#[kani::unwind(5)]
+fn bucket_create_step() {
+    let kvn: [u8; 1] = kani::any();
+    put_leaf_page(3, 0, &[Ent { t: 0, k: &kvn, v: &[7] }]);
+    let b = mk_bucket(3, true);
+    let name: [u8; 1] = kani::any();
+    kani::assume(name != kvn);
+    let c = b.inner.borrow_mut().create_bucket(name);
+    assert!(c.is_ok(), "a new bucket can be created");
+    std::mem::forget(c);
+    {
+    let ib = b.inner.borrow();
+    assert!(ib.meta.next_int == 1, "the counter is bumped exactly once");
+    assert!(ib.dirty);
+    assert!(ib.buckets.len() == 1, "the new bucket is known to the transaction");
+    assert!(ib.nodes.len() == 1);
+    let n = ib.nodes[0].borrow();
+    match &n.data {
+        NodeData::Leaves(l) => {
+            assert!(l.len() == 2, "its entry was added to the parent's leaf");
+            let at = if name[0] < kvn[0] { 0 } else { 1 };
+            assert!(!l[at].is_kv() && l[at].key() == &name[..], "as a bucket entry at its sorted position");
+            assert!(l[1 - at].is_kv() && l[1 - at].key() == &kvn[..]);
+        }
+        _ => panic!("leaf expected"),
+    }
+    }
+    std::mem::forget(b);
+}
+
+
